@@ -31,6 +31,8 @@ NoEsc(o) == SelectSeq(o, LAMBDA x : x # "E")
 RECURSIVE WrapEcho(_, _)
 WrapEcho(c, k) == IF c = <<>> THEN <<>>
                   ELSE <<c[1]>> \o (IF (k + 1) % 2 = 0 THEN <<"_", "R">> ELSE <<>>) \o WrapEcho(Tail(c), k + 1)
+\* a terminal that breaks the line while it echoes (the cursor reached the right margin): CR LF behind the first character
+BreakEcho(c) == IF Len(c) < 2 THEN c ELSE <<c[1], "R", "N">> \o Tail(c)
 Banner == <<"f", "_", "N">>
 Scn(m) ==
   LET nc     == 1 + Below(4, m, 1)
@@ -38,13 +40,16 @@ Scn(m) ==
       rs     == Pick(ReadSizes, m, 3)
       strip  == Coin(m, 4)
       wrap   == Below(3, m, 5) = 0
-      exact  == (~wrap) /\ Coin(m, 6)
       cmds   == [j \in 1..nc |-> Pick(Cmds, m, 10 + j)]
       outs   == [j \in 1..nc |-> IF rs < 8 THEN NoEsc(Out(m, j)) ELSE Out(m, j)]
       need   == LET ls == {LongestLine(Answer(outs[j], prompt)) : j \in 1..nc}
                 IN (CHOOSE x \in ls : \A y \in ls : y <= x) + Len(prompt)
       depth  == CASE Below(3, m, 7) = 0 -> need + 1 [] Below(3, m, 7) = 1 -> need + 4 [] OTHER -> 1000
-  IN [id |-> m, nc |-> nc, prompt |-> Str(prompt), readSize |-> rs, strip |-> strip, wrap |-> wrap, exact |-> exact,
+      \* the broken echo only with the default search depth: a depth that does not reach back over prompt and echo to the line
+      \* feed in front of them is outside what the property promises for an echo of two lines
+      brk    == (~wrap) /\ depth = 1000 /\ Below(2, m, 9) = 0
+      exact  == (~wrap) /\ (~brk) /\ Coin(m, 6)
+  IN [id |-> m, nc |-> nc, prompt |-> Str(prompt), readSize |-> rs, strip |-> strip, wrap |-> wrap, brk |-> brk, exact |-> exact,
       depth |-> depth,
       \* the operation carries an interim prompt pattern that nothing the device prints matches: the output is then awaited by
       \* ReadUntilAnyPrompt instead of ReadUntilPrompt, the contract is the same
@@ -55,7 +60,7 @@ Scn(m) ==
       \* an empty command (a bare return): nothing is echoed, the device answers with its prompt alone
       expectempty |-> Str(Post(<<"N", "N">> \o prompt, strip)),
       early |-> EarlyEcho(cmds[1], Banner \o prompt \o <<"N", "N">> \o prompt,
-                          IF wrap THEN WrapEcho(cmds[1], 0) ELSE cmds[1], depth, exact),
+                          IF wrap THEN WrapEcho(cmds[1], 0) ELSE IF brk THEN BreakEcho(cmds[1]) ELSE cmds[1], depth, exact),
       devlog |-> [j \in 1..nc |-> Str(cmds[j])]]
 
 Init == n = 0
